@@ -568,10 +568,16 @@ class ReplaceWiresAndVariables(ast.NodeTransformer):
         self.ports = ports
         self.variables = variables
         self.arguments = arguments
+        # names that belong to self.<name>: a local variable with one of these names would
+        # silently become the same Verilog identifier
+        self.selfNames = set(ports.keys()) | set(variables.keys()) | set(arguments.keys())
         
     def visit_Name(self, node):
         
         name = node.id
+        if (name in self.selfNames):
+            raise TranspilationException('Local variable {} has the name of a self attribute'.format(name))
+
         if (name in self.ports.keys()):
             return VerilogWire(name)
 
@@ -592,6 +598,9 @@ class ReplaceWiresAndVariables(ast.NodeTransformer):
             raise TranspilationException('Only self.<name> attributes are supported: {}'.format(ast.unparse(node)))
         
         name = node.attr
+        if (name in self.variables.keys() and not name in self.selfNames):
+            raise TranspilationException('Attribute self.{} has the name of a local variable'.format(name))
+        self.selfNames.add(name)
         if (name in self.ports.keys()):
             return VerilogWire(name)
 
